@@ -94,13 +94,18 @@ Definition arith_base_ok (k : arithk) (a b : tyh) : bool :=
   | _, _, _ => false
   end.
 
+Definition arith_constr (k : arithk) (t : tyid) : constr :=
+  match k with AAdd => CAdd t | ASub => CSub t | AMul => CMul t | ACmp => CCmp t end.
+
 Definition is_num (t : tyh) : bool := match t with HInt | HFloat => true | _ => false end.
 
 (* fn add, sub, mul, cmp (1799-1872, 1950-1978): identical but for the base pairs and the operator
    name in the message *)
 Definition arith_body (R : grec) (k : arithk) (sp : span) (a b : tyid) : M unit :=
   ta <- find_type a ;; tb <- find_type b ;;
-  if is_unknown ta || is_unknown tb then ret tt
+  if is_unknown ta || is_unknown tb then
+    (* checked again when the unknown side becomes known (since 9e46917; matters for components of tuples) *)
+    add_constraint a (arith_constr k b) ;;; add_constraint b (arith_constr k a)
   else if arith_base_ok k ta tb then ret tt
   else match ta, tb with
        | HTuple xs, HTuple ys =>
@@ -150,7 +155,8 @@ Definition divres_body (R : grec) (sp : span) (a b : tyid) : M unit :=
 Definition neg_body (R : grec) (sp : span) (a : tyid) : M unit :=
   t <- find_type a ;;
   match t with
-  | HUnknown | HInt | HFloat => ret tt
+  | HUnknown => add_constraint a CNeg          (* checked again when the type becomes known (9e46917) *)
+  | HInt | HFloat => ret tt
   | HTuple tys => iterM (g_neg R sp) tys
   | _ => fail KUniOp sp
   end.
